@@ -69,11 +69,13 @@ SchemaFails(e) ==
   ELSE LET a == Analyse(e.mods, {<<e.feats[i][1], e.feats[i][2]>> : i \in 1..Len(e.feats)})
            got == IF e.ok THEN "ok" ELSE "err"
        IN IF a.verdict = "unjudged" THEN {}
-          ELSE IF a.verdict # got THEN {[id |-> e.id, site |-> "schema", filter |-> "", attr |-> "verdict", kind |-> "", path |-> a.verdict \o " expected"]}
+          \* "open": whether it compiles is not judged; if it does, the schema is, but for the attributes in a.opens
+          ELSE IF a.verdict # "open" /\ a.verdict # got THEN {[id |-> e.id, site |-> "schema", filter |-> "", attr |-> "verdict", kind |-> "", path |-> a.verdict \o " expected"]}
           ELSE IF ~e.ok THEN {}
-          ELSE LET d == DiffSet(SpecBags(a.schema), ToSet(e.dump), "")
+          ELSE LET d == DiffSet(MaskTree(SpecBags(a.schema), <<>>, a.opens), MaskTree(ToSet(e.dump), <<>>, a.opens), "")
                IN IF d = NoDiff THEN {} ELSE {[id |-> e.id, site |-> "schema", filter |-> "", attr |-> d.attr, kind |-> d.kind, path |-> d.path]}
-Unjudged(e) == e.judge /\ Analyse(e.mods, {<<e.feats[i][1], e.feats[i][2]>> : i \in 1..Len(e.feats)}).verdict = "unjudged"
+Unjudged(e) == e.judge /\ LET v == Analyse(e.mods, {<<e.feats[i][1], e.feats[i][2]>> : i \in 1..Len(e.feats)}).verdict
+                            IN v = "unjudged" \/ (v = "open" /\ ~e.ok)
 
 TInit == l = 1 /\ nfail = 0 /\ nchecks = 0
 TNext == /\ l <= Len(Trace) /\ l' = l + 1
